@@ -1,5 +1,6 @@
 #!/bin/sh
-# C07 finding on the real code (nothing is written into /repo: go test -overlay). Both tests FAIL on the unchanged tree:
+# C07 finding on the real code (nothing is written into /repo: go test -overlay). Both tests FAILED before the fix commit
+# 8f2a931 ("fix: blankhost: do not ignore the error of Stream.SetProtocol") and pass after it:
 # BlankHost ignores the error of Stream.SetProtocol in NewStream (dialer) and in newStreamHandler (listener).
 . /verif/env.sh
 D=/verif/replay/C07
